@@ -43,7 +43,9 @@ InsertOperator(ops, existing, existingBinary, new, type, createGroup) ==
 
 \* group number of entry i (1 + number of separators before it)
 Group(ops, i) == 1 + Cardinality({j \in 1..(i - 1) : IsSep(ops[j])})
-Entries(ops) == {i \in 1..Len(ops) : ~IsSep(ops[i]) /\ ops[i][2] # "nvp"}
+\* pseudo entry <<"()", "deleg">>: the engine was created with allow_delegates (parser.py p_value_call: value '(' args ')')
+Entries(ops) == {i \in 1..Len(ops) : ~IsSep(ops[i]) /\ ops[i][2] \notin {"nvp", "deleg"}}
+Delegates(ops) == \E i \in 1..Len(ops) : ops[i] = <<"()", "deleg">>
 Syms(ops) == {ops[i][1] : i \in Entries(ops)}
 
 \* _build_operator_table raises InvalidOperatorTableException for a symbol with two unary or two binary roles
@@ -75,7 +77,7 @@ Atoms == {"a", "b", "c", "d"}
 Top == 1000     \* no limit
 
 \* trees:  <<"atom", x>>  <<"par", T>>  <<"bin", op, L, R>>  <<"pre", op, T>>  <<"suf", op, T>>
-\*         <<"idx", T, args>>  <<"call", args>>  <<"list", args>>  <<"map", args>>
+\*         <<"idx", T, args>>  <<"call", args>>  <<"list", args>>  <<"map", args>>  <<"dcall", T, args>> (a value called)
 \*         args: sequence of items - trees, <<"empty">> (omitted positional argument) and <<"nv", K, V>> (named argument)
 Res(ok, t, p) == [ok |-> ok, t |-> t, p |-> p]
 Fail(p) == Res(FALSE, <<"err">>, p)
@@ -151,6 +153,11 @@ ParseLoop(ops, toks, left, p, limit) ==
        ELSE IF t = "[" /\ IndexLevel(ops) # 0 /\ IndexLevel(ops) < limit THEN
             LET a == ParseArgs(ops, toks, p + 1, "]", <<>>)
             IN IF a.ok THEN ParseLoop(ops, toks, <<"idx", left, a.t>>, a.p, limit) ELSE a
+       ELSE IF t = "(" /\ Delegates(ops) /\ limit = Top THEN
+            \* calling a value: the parenthesis has no precedence of its own, every pending operator is reduced first, so the
+            \* callee is the whole expression parsed so far (a + b (c) calls a + b)
+            LET a == ParseArgs(ops, toks, p + 1, ")", <<>>)
+            IN IF a.ok THEN ParseLoop(ops, toks, <<"dcall", left, a.t>>, a.p, limit) ELSE a
        ELSE Res(TRUE, left, p)
 
 ParseExpr(ops, toks, p, limit) ==
@@ -171,6 +178,7 @@ Yield(t) ==
       [] t[1] = "empty" -> <<>>
       [] t[1] = "nv"   -> Yield(t[2]) \o <<"=>">> \o Yield(t[3])
       [] t[1] = "map"  -> <<"{">> \o YieldArgs(t[2]) \o <<"}">>
+      [] t[1] = "dcall" -> Yield(t[2]) \o <<"(">> \o YieldArgs(t[3]) \o <<")">>
       [] t[1] = "par"  -> <<"(">> \o Yield(t[2]) \o <<")">>
       [] t[1] = "bin"  -> Yield(t[3]) \o <<t[2]>> \o Yield(t[4])
       [] t[1] = "pre"  -> <<t[2]>> \o Yield(t[3])
@@ -186,7 +194,8 @@ LeftOk(ops, t, lv, right) ==
       [] t[1] = "pre" -> TRUE          \* a prefix operator on the left already closed its operand (checked at the pre node)
       [] OTHER -> TRUE
 RightOk(ops, t, lv, right) ==
-    CASE t[1] = "bin" -> BinLevel(ops, t[2]) < lv \/ (BinLevel(ops, t[2]) = lv /\ right)
+    CASE t[1] = "dcall" -> FALSE       \* a called value is never the right operand of anything without parentheses
+      [] t[1] = "bin" -> BinLevel(ops, t[2]) < lv \/ (BinLevel(ops, t[2]) = lv /\ right)
       [] t[1] = "suf" -> SufLevel(ops, t[2]) <= lv
       [] OTHER -> TRUE
 
@@ -197,6 +206,7 @@ Laws(ops, t) ==
       [] t[1] = "empty" -> TRUE
       [] t[1] = "nv"   -> Laws(ops, t[2]) /\ Laws(ops, t[3])            \* both sides are complete expressions
       [] t[1] = "map"  -> LawsArgs(ops, t[2])
+      [] t[1] = "dcall" -> Laws(ops, t[2]) /\ LawsArgs(ops, t[3])
       [] t[1] = "par"  -> Laws(ops, t[2])                                   \* parentheses override everything
       [] t[1] = "bin"  -> /\ LeftOk(ops, t[3], BinLevel(ops, t[2]), BinRight(ops, t[2]))
                           /\ RightOk(ops, t[4], BinLevel(ops, t[2]), BinRight(ops, t[2]))
@@ -204,6 +214,7 @@ Laws(ops, t) ==
       [] t[1] = "pre"  -> /\ (t[3][1] = "bin" => (BinLevel(ops, t[3][2]) < PreLevel(ops, t[2])
                                                    \/ (BinLevel(ops, t[3][2]) = PreLevel(ops, t[2]) /\ BinRight(ops, t[3][2]))))
                           /\ (t[3][1] = "suf" => SufLevel(ops, t[3][2]) <= PreLevel(ops, t[2]))
+                          /\ t[3][1] # "dcall"
                           /\ Laws(ops, t[3])
       [] t[1] = "suf"  -> /\ (t[3][1] = "bin" => BinLevel(ops, t[3][2]) < SufLevel(ops, t[2]))
                           /\ (t[3][1] = "pre" => PreLevel(ops, t[3][2]) < SufLevel(ops, t[2]))
